@@ -427,6 +427,19 @@ impl Monitor for C06 {
                     } else {
                         out.push(viol("C06", "traded_event_missing", ev.idx, "no Traded event for an executed swap".into()));
                     }
+                    // balances with transfer-fee mints: the vault's receipt (what arrives after the token program withheld its
+                    // fee) is what splits into curve amount + protocol share + LP share; the vault sends exactly the curve output
+                    if let (false, Some(b)) = (o.plain, &o.single) {
+                        let paid = (sums.sum_in + sums.sum_fee) as i128;
+                        let full_exact_in = o.is_input && o.post.sqrt_price != effective_limit(o.limit, o.a_to_b);
+                        cov.probe("transfer_fee_swap_balances_checked");
+                        if b.vault_in_delta < paid || (full_exact_in && b.vault_in_delta != paid) {
+                            out.push(viol("C06", "input_balance", ev.idx, format!("the vault received {} (after the token program's transfer fee) but curve input + fee = {} (exact-in fully filled: {})", b.vault_in_delta, paid, full_exact_in)));
+                        }
+                        if -b.vault_out_delta != sums.sum_out as i128 {
+                            out.push(viol("C06", "output_balance", ev.idx, format!("the vault paid {} but curve output = {}", -b.vault_out_delta, sums.sum_out)));
+                        }
+                    }
                     // balances (plain mints)
                     if let (true, Some(b)) = (o.plain, &o.single) {
                         let paid = sums.sum_in + sums.sum_fee;
